@@ -143,6 +143,10 @@ def make_variant(crystal, vi, rnd, nvariants):
             v["hints"] = list(rnd.choice(hs))
         if rnd.random() < 0.3:
             v["split"] = rnd.randrange(1 << 30)
+        if rnd.random() < 0.5:
+            # the whole crystal turned by an exact cube rotation (not the identity): a box-shaped cell stays exactly
+            # orthogonal (all angles exactly 90 degrees) but is no longer diagonal
+            v["Qc"] = rnd.randrange(1, 24)
         return v
     v = dict(cls=rnd.randrange(NORMAL_CLASSES), Q=rnd.randrange(1 << 30) if vi % 2 == 1 else None,
              pmove=rnd.randrange(1 << 30), pcube=None, perm=rnd.randrange(1 << 30), jitter=rnd.randrange(1 << 30),
@@ -173,6 +177,8 @@ def build(crystal, v):
         v["cls"] = 4 if v["rseed"] % 2 == 0 else 5
     s, atol = TOL_CLASSES[v["cls"]]
     Q = np.eye(3) if v["Q"] is None else katoms.random_rotation(np.random.default_rng(v["Q"]))
+    if v.get("Qc") is not None:
+        Q = ROT24[v["Qc"]]
     R = katoms.Rendering("r", s, Q)
     cell = R.vec(crystal["cell"])
     pos = R.vec([a["pos"] for a in crystal["atoms"]])
